@@ -1,4 +1,5 @@
 import Crem.Properties.C01
+import Crem.Proofs.SumInv
 /-!
 # C02 — proposals are transactional: exact revert, accept = reported change
 
@@ -11,6 +12,19 @@ every action index `i`.
 * `accept`, `revert`         = `AcceptChange`, `RevertChange`
 * `change s v`               = `DecisionVariableChange(v)` (done − undone value of the pending command)
 * `total`, `unitVal`, `flags` = the observables (the solution encoding is a function of `flags`)
+
+**How to read `revert_exact`.**  In the code (and in the model) a proposal only *builds* the commands; the values
+move on `AcceptChange`.  A revert of a pending proposal therefore finds all commands un-done and only flips the
+action flag back: exactness of `propose; revert` is close to "nothing had been written yet".  The substantive
+"put back" of an APPLIED change is `Randomize()`'s limit-seeking loop (`InitialisingActivation` followed by the
+opposite `Initialising…` when the attempt was invalid); its exactness is `initialising_back_sameVals`
+(Proofs/Limits.lean), used by C03's `seekLimit_valid`, and is checked on the real code by the `randomize` lines of
+the catchment-walk suite.
+
+**Raw histories.**  The last section drops conformance altogether: `RawOp` is the alphabet of *single* calls of the
+`model.Model` interface in any order (API misuse included); what survives of C02 there is stated by the
+`…_any_history` theorems (accept = reported change, own unit, locality).  Exact revert does NOT survive
+(`revert;revert`, see C01's examples).
 
 Every `theorem` in this file is audited by `./check C02` (`#print axioms`).
 -/
@@ -72,6 +86,24 @@ theorem local_change {D : Data} {s : State} (hI : InitConsistent D) (hK : KeysDi
   rw [hacc]
   exact facts.other v p hp
 
+/-- **the action's own unit**: accepting a proposal moves the per-planning-unit value of every variable in the
+action's own planning unit by exactly the change reported for the proposal (`DecisionVariableChange` is the
+command's per-unit `done − undone`); with `local_change` this accounts for every unit -/
+theorem accept_moves_own_unit {D : Data} {s : State} (hI : InitConsistent D) (hc : Canon D s)
+    {i : Nat} {a : Action} (ha : D.acts[i]? = some a) :
+    ∀ v, unitVal (accept (propose D s i)) v a.pu = unitVal s v a.pu + change (propose D s i) v := by
+  have hi : i < D.acts.length := by
+    rcases Nat.lt_or_ge i D.acts.length with h | h
+    · exact h
+    · simp [List.getElem?_eq_none h] at ha
+  obtain ⟨a', cur, ha', _, hp⟩ := propose_of_canon hc hi
+  rw [ha] at ha'
+  have e : a = a' := Option.some.inj ha'
+  subst e
+  intro v
+  rw [hp, accept_observed]
+  exact (toggled_own (hc.gridVals hI.facts) a (!cur) i (hI.facts.unitsOK.acts a (List.mem_of_getElem? ha)) v).1
+
 /-- `AcceptChange` twice is `AcceptChange` once (the status guard) — any state -/
 theorem accept_idem (s : State) : accept (accept s) = accept s := by
   simp only [accept, acceptAll, doP_idem, doS_idem]
@@ -92,6 +124,73 @@ theorem transactional_reachable {D : Data} (hI : InitConsistent D) (hK : KeysDis
   ⟨propose_keeps_values D _ i, revert_exact hI hc hi, accept_is_reported_change hI hK hc hi,
    fun _ ha _ hp => local_change hI hK hc ha hp⟩
 
+/-! ### raw histories: single interface calls in ANY order
+
+`UnitsOK D` (decidable as `unitsOK D`; implied by `InitConsistent D`): planning-unit ids distinct, the three
+pollutant variables carry the same ids, every action's unit is a planning unit.  No `KeysDistinct`, nothing about the
+attribute records. -/
+
+/-- single calls of the `model.Model` interface (and the `Initialising…` calls of the actions) -/
+inductive RawOp
+  | propose (i : Nat)                    -- `TryRandomChange` with index `i` drawn / `ToggleAction`
+  | accept                               -- `AcceptChange`
+  | revert                               -- `RevertChange`
+  | set (i : Nat) (b : Bool)             -- `SetManagementAction`
+  | setAll (bits : List Bool)            -- `SynchroniseTo` / `Decompress`
+  | initialising (i : Nat) (b : Bool)    -- `InitialisingActivation` / `InitialisingDeactivation`
+  | reinit (k : InitKind)                -- `Initialise(kind)`
+  | randomize (draws : List Nat)         -- `Randomize()`
+
+def applyRaw (D : Data) (s : State) : RawOp → State
+  | .propose i => propose D s i
+  | .accept => accept s
+  | .revert => revert s
+  | .set i b => setAction D s i b
+  | .setAll bits => setAll D s bits
+  | .initialising i b => initialising D s i b
+  | .reinit k => initialise D k
+  | .randomize draws => (randomize D s draws).state
+
+/-- the state after ANY sequence of single calls, starting from `Initialise(AsIs)` -/
+def runRaw (D : Data) (ops : List RawOp) : State := ops.foldl (applyRaw D) (init D)
+
+theorem unitsOK_of_initConsistent {D : Data} (hI : InitConsistent D) : UnitsOK D := hI.facts.unitsOK
+
+/-- every single call preserves the raw-operation invariant `SumInv` (Proofs/SumInv.lean) -/
+theorem applyRaw_sumInv {D : Data} (hU : UnitsOK D) {s : State} (h : SumInv D s) (op : RawOp) :
+    SumInv D (applyRaw D s op) := by
+  cases op with
+  | propose i => exact propose_sumInv hU h i
+  | accept => exact accept_sumInv h
+  | revert => exact revert_sumInv h
+  | set i b => exact setAction_sumInv hU h i b
+  | setAll bits => exact setAll_sumInv hU h bits
+  | initialising i b => exact initialising_sumInv hU h i b
+  | reinit k => exact initialise_sumInv hU k
+  | randomize draws => exact randomize_sumInv hU h draws
+
+/-- … hence it holds after any history of single calls, misuse included -/
+theorem sumInv_of_any_history {D : Data} (hU : UnitsOK D) (ops : List RawOp) : SumInv D (runRaw D ops) :=
+  foldl_inv (SumInv D) (applyRaw D) (fun _ op h => applyRaw_sumInv hU h op) ops (init D) (sumInv_init hU)
+
+/-- **accept = reported change, own unit, locality — after ANY history of single calls.**  In whatever state the
+model has been left (pending, stale or twice-reverted commands included), a proposal that is followed at once by
+`AcceptChange` moves every total and the action's own unit by exactly the change it reported, and moves no other
+unit.  (Conformance is needed for *exact revert* and for C01, not for this.) -/
+theorem accept_is_reported_change_any_history {D : Data} (hU : UnitsOK D) (ops : List RawOp)
+    {i : Nat} {a : Action} {cur : Bool} (ha : D.acts[i]? = some a) (hf : (runRaw D ops).flags[i]? = some cur) :
+    ∀ v, total (accept (propose D (runRaw D ops) i)) v
+            = total (runRaw D ops) v + change (propose D (runRaw D ops) i) v ∧
+         unitVal (accept (propose D (runRaw D ops) i)) v a.pu
+            = unitVal (runRaw D ops) v a.pu + change (propose D (runRaw D ops) i) v ∧
+         ∀ p, p ≠ a.pu → unitVal (accept (propose D (runRaw D ops) i)) v p = unitVal (runRaw D ops) v p := by
+  intro v
+  have hp : propose D (runRaw D ops) i = observed a (!cur) i (runRaw D ops) := by
+    unfold propose; rw [hf]; exact toggleObserved_eq ha
+  rw [hp, accept_observed]
+  have := toggled_own (sumInv_of_any_history hU ops).gridVals a (!cur) i (hU.acts a (List.mem_of_getElem? ha)) v
+  exact ⟨this.2.1, this.1, this.2.2⟩
+
 /-! Non-vacuity / sanity (tests, labelled as such) on the concrete dataset of C01:
 a proposal with a non-zero reported change in a non-initial state. -/
 
@@ -103,5 +202,22 @@ example : change (propose exData exS 0) .sed ≠ 0 ∧
     (revert (propose exData exS 0)).flags = exS.flags ∧
     unitVal (accept (propose exData exS 0)) .sed 2 = unitVal exS .sed 2 ∧
     unitVal (accept (propose exData exS 0)) .sed 1 ≠ unitVal exS .sed 1 := by decide +kernel
+
+/-- the own unit moves by the reported change (sediment of unit 1, action 0) -/
+example : unitVal (accept (propose exData exS 0)) .sed 1 = unitVal exS .sed 1 + change (propose exData exS 0) .sed ∧
+    change (propose exData exS 0) .sed ≠ 0 := by decide +kernel
+
+/-- a misuse history (`propose; revert; revert; accept; propose; propose; accept; revert; revert`) and, after it,
+a proposal accepted at once: flags and values have separated (the state is not the canonical one of its flags),
+yet the accepted proposal moves total and own unit by exactly what it reported -/
+def exMisuse : State :=
+  runRaw exData [.propose 0, .revert, .revert, .accept, .propose 1, .propose 2, .accept, .revert, .revert]
+
+example : unitsOK exData = true ∧
+    total exMisuse .sed ≠ total (setAll exData (init exData) exMisuse.flags) .sed ∧
+    change (propose exData exMisuse 1) .sed ≠ 0 ∧
+    total (accept (propose exData exMisuse 1)) .sed = total exMisuse .sed + change (propose exData exMisuse 1) .sed ∧
+    unitVal (accept (propose exData exMisuse 1)) .sed 1
+      = unitVal exMisuse .sed 1 + change (propose exData exMisuse 1) .sed := by decide +kernel
 
 end Crem.Catchment
